@@ -949,7 +949,8 @@ func (p *BinaryProtocol) ReadString(copy bool) (value string, err error) {
 	}
 	if copy {
 		value = string(bytes)
-	} else {
+	} else if all > n {
+		// NOTICE: an empty string must not point to (one past) the end of the buffer
 		v := (*rt.GoString)(unsafe.Pointer(&value))
 		v.Ptr = rt.IndexPtr(*(*unsafe.Pointer)(unsafe.Pointer(&p.Buf)), byteTypeSize, p.Read+n)
 		v.Len = int(all - n)
